@@ -8,8 +8,14 @@
         and projection ("mismatch" codes 1-5);
       - evaluates the properties' own predicates on the implementation's observations only
         ("monitor" codes 10-14): the backing invariant (C03), and the gates (C14).
-    The ghost counter selfburned is tracked by the harness (sum of successful holder
-    burns); stuck is 0 because no generated Transfer has a blocked sender. *)
+    The ghost counters are tracked by the harness: selfburned = sum of successful holder
+    burns; stuck = sum of the amounts of the Transfer-to-module logs of a module-owned pair
+    whose sender is a blocked address (another module account; such senders exist only in
+    receipts handed to the hook at keeper level), processed while both parameters and the
+    pair were switched on.
+
+    An [EvmTx] step is one Ethereum transaction whose receipt carries several logs, possibly
+    of several pairs: every pair named by a leg is a target of the comparison. *)
 From Coq Require Import ZArith NArith List Bool.
 From Canto Require Import Model.Erc20 Check.Common.
 Import ListNotations.
@@ -24,7 +30,8 @@ Record pobs := mkPobs {
   o_total : Z;
   o_cbal : list Z;        (* aligned with the parties of the case *)
   o_tbal : list Z;
-  o_selfburned : Z
+  o_selfburned : Z;
+  o_stuck : Z
 }.
 
 Record obs := mkObs {
@@ -66,7 +73,7 @@ Fixpoint fun_of (ps : list addr) (vs : list Z) : addr -> Z :=
 
 Definition pair_of (parties : list addr) (o : pobs) : pair :=
   mkPair (o_kind o) (o_owner o) (fun_of parties (o_cbal o)) (o_supply o)
-         (fun_of parties (o_tbal o)) (o_total o) (o_enabled o) (o_sendok o) (o_selfburned o) 0.
+         (fun_of parties (o_tbal o)) (o_total o) (o_enabled o) (o_sendok o) (o_selfburned o) (o_stuck o).
 
 Definition dummy_pair : pair :=
   mkPair ModuleOwned ZERO (fun _ => 0) 0 (fun _ => 0) 0 false false 0 0.
@@ -85,15 +92,24 @@ Definition token_eqb (parties : list addr) (ps : pair) (o : pobs) : bool :=
 Definition flags_eqb (ps : pair) (o : pobs) : bool :=
   Bool.eqb (p_enabled ps) (o_enabled o) && Bool.eqb (p_sendok ps) (o_sendok o).
 
-Definition target (o : op) : Z := match o with OnPair p _ => p | SetParams _ _ => -1 end.
+Definition leg_pair (l : leg) : option Z :=
+  match l with LTransfer p _ _ _ => Some p | LApprove p _ _ _ => Some p | LForeign _ _ _ => None end.
+
+(* the pairs an operation may change *)
+Definition target (o : op) (q : Z) : bool :=
+  match o with
+  | OnPair p _ => q =? p
+  | SetParams _ _ => false
+  | EvmTx legs => existsb (fun l => match leg_pair l with Some p => q =? p | None => false end) legs
+  end.
 
 (* compare the model's post-state with the observation, pair by pair *)
-Fixpoint cmp_pairs (parties : list addr) (c i tgt : Z) (s : state) (q : Z) (os : list pobs) : list diff :=
+Fixpoint cmp_pairs (parties : list addr) (c i : Z) (tgt : Z -> bool) (s : state) (q : Z) (os : list pobs) : list diff :=
   match os with
   | [] => []
   | o :: r =>
       let ps := pairs s q in
-      (if q =? tgt then
+      (if tgt q then
          report (bank_eqb parties ps o) c i 2 ++
          report (token_eqb parties ps o) c i 3 ++
          report (flags_eqb ps o) c i 4
